@@ -6,7 +6,9 @@ cd "$(dirname "$0")"
 export GOFLAGS=-mod=mod GOPROXY=off GOSUMDB=off GOTOOLCHAIN=local
 cp /repo/go.sum go.sum 2>/dev/null
 pkg="$1"; shift
-out=$(go test -vet=off -count=1 -timeout 20m "./$pkg" "$@" -v 2>&1)
+# VERIF_OVERLAY=<file>: a `go build -overlay` file (used by selftest/automut.sh to try a mutant of
+# /repo without writing to /repo); unset in every registered command.
+out=$(go test ${VERIF_OVERLAY:+-overlay "$VERIF_OVERLAY"} -vet=off -count=1 -timeout 20m "./$pkg" "$@" -v 2>&1)
 rc=$?
-echo "$out" | grep -E "^(BOUNDED|KNOWN-FINDING|--- FAIL|FAIL|ok|panic|WARNING: DATA RACE|\s+.*_test.go)"
+echo "$out" | grep -E "^(BOUNDED|KNOWN-FINDING|--- FAIL|FAIL|ok|panic|fatal error|runtime: goroutine stack exceeds|WARNING: DATA RACE|\s+.*_test.go)"
 exit $rc
